@@ -261,3 +261,37 @@ Definition interrogation_110 (bs : list bool) : interrogation :=
 Definition interrogation_160 (bs : list bool) : interrogation :=
   interrogation_head bs [{| is_mmsi := sl bs 40 30; is_messages := int_requests2 bs 70 90 |};
                          {| is_mmsi := sl bs 110 30; is_messages := [int_msg_at bs 140] |}].
+
+(* ---------- type 15 at every length ----------
+   A request is its type and, when 12 more bits are present, a slot offset; a station is its
+   identifier, one request and, when 8 more bits are present, two spare bits and a second
+   request (reported unless it is all zero); a second station follows two spare bits when 30 more
+   bits are present after the first, and is followed by two spare bits.  [L] is the payload
+   length in bits; positions are written the way the cursor computes them. *)
+Definition int_msg_gen (bs : list bool) (p : nat) : int_message :=
+  {| im_message_type := sl bs p 6;
+     im_slot_offset := if (12 <=? length bs - (6 + p))%nat then opt_nz (sl bs (6 + p) 12) else None |}.
+Definition int_msg_end (L p : nat) : nat := if (12 <=? L - (6 + p))%nat then (12 + (6 + p))%nat else (6 + p)%nat.
+Definition int_keep (m : int_message) : bool :=
+  negb (im_message_type m =? 0) || (match im_slot_offset m with Some _ => true | None => false end).
+Definition int_station_gen (bs : list bool) (p : nat) : int_station :=
+  let e1 := int_msg_end (length bs) (30 + p) in
+  let m1 := int_msg_gen bs (30 + p)%nat in
+  {| is_mmsi := sl bs p 30;
+     is_messages := if (8 <=? length bs - e1)%nat
+                    then (if int_keep (int_msg_gen bs (2 + e1)) then [m1; int_msg_gen bs (2 + e1)] else [m1])
+                    else [m1] |}.
+Definition int_station_end (L p : nat) : nat :=
+  let e1 := int_msg_end L (30 + p) in
+  if (8 <=? L - e1)%nat then int_msg_end L (2 + e1) else e1.
+(* the decoded message and the number of bits consumed; None = rejected *)
+Definition interrogation_of (bs : list bool) : option (interrogation * nat) :=
+  let L := length bs in
+  if (L <? 76)%nat then None else
+  let e1 := int_station_end L 40 in
+  if (30 <=? L - e1)%nat then
+    if ((36 + (2 + e1) <=? L) && (2 + int_station_end L (2 + e1) <=? L))%nat
+    then Some (interrogation_head bs [int_station_gen bs 40; int_station_gen bs (2 + e1)],
+               (2 + int_station_end L (2 + e1))%nat)
+    else None
+  else Some (interrogation_head bs [int_station_gen bs 40], e1).
